@@ -59,6 +59,12 @@ class Ledger:
         if os.path.exists(path):
             with open(path) as f:
                 self.entries = json.load(f).get('findings', [])
+        ddir = os.path.join(os.path.dirname(path), 'known_findings.d')
+        if os.path.isdir(ddir):
+            for fn in sorted(os.listdir(ddir)):
+                if fn.endswith('.json'):
+                    with open(os.path.join(ddir, fn)) as f:
+                        self.entries.extend(json.load(f).get('findings', []))
 
     def match(self, prop, features):
         flat = _flatten(features)
